@@ -579,6 +579,42 @@ class PathEnumerator:
             live = nxt
         return [r for _, r in done] + live
 
+    def _fluent_rebinding(self, name: str, st, body_paths: List[Path]) -> bool:
+        acc = ("loopvar", name, st.lineno)
+        changed = False
+        for bp in body_paths:
+            nv = bp.env.get(name)
+            if nv == acc:
+                continue
+            if not (nv is not None and nv[0] == "call" and isinstance(nv[1], tuple) and nv[1][0] == "attr" and nv[1][1] == acc):
+                return False
+            c = self.ev.type_of(acc) or self.ev.type_of(self._init_of(name, st)) if self._init_of(name, st) is not None else self.ev.type_of(acc)
+            if c is None or not self._returns_self(c, nv[1][2], 0):
+                return False
+            changed = True
+        return changed
+
+    def _init_of(self, name: str, st) -> Optional[Term]:
+        return self._cur_env.get(name) if getattr(self, "_cur_env", None) else None
+
+    def _returns_self(self, c, method: str, depth: int) -> bool:
+        fs = c.resolve_all(method)
+        if len(fs) != 1 or fs[0].kind != "method" or depth > 3:
+            return False
+        f = fs[0]
+        rets = [n for n in ast.walk(f.node) if isinstance(n, ast.Return)]
+        if not rets:
+            return False
+        for r in rets:
+            v = r.value
+            if isinstance(v, ast.Name) and v.id == f.self_name:
+                continue
+            if isinstance(v, ast.Call) and isinstance(v.func, ast.Attribute) and isinstance(v.func.value, ast.Name) and v.func.value.id == f.self_name \
+                    and self._returns_self(c, v.func.attr, depth + 1):
+                continue
+            return False
+        return True
+
     def _flag_quantifier(self, name: str, st: ast.For, it: Term, body_paths: List[Path], p: Path, fr: Frame) -> Optional[Term]:
         from .sym import t_or
         init = None
@@ -634,6 +670,7 @@ class PathEnumerator:
         ev = self.ev
         f = self._frame(fr, p)
         body_env = dict(p.env)
+        self._cur_env = dict(p.env)
         # variables assigned anywhere in the loop are loop-carried: havoc them for the body summary
         assigned = _assigned_names(st.body)
         for n in assigned:
@@ -681,6 +718,17 @@ class PathEnumerator:
             cond0 = ev.expr(st.test, bf)
         start = Path(cond0, [], body_env)
         body_paths = self.block(st.body, [start], Frame(fr.fn, fr.module, body_env, fr.self_cls, fr.depth))
+        # ``acc = acc.m(...)`` with m handing back its receiver (fluent style) keeps acc the same object: not loop-carried after all
+        stable = [n for n in assigned if n in p.env and self._fluent_rebinding(n, st, body_paths)]
+        if stable:
+            for n in stable:
+                body_env[n] = p.env[n]
+            assigned = [n for n in assigned if n not in stable]
+            start = Path(cond0, [], body_env)
+            body_paths = self.block(st.body, [start], Frame(fr.fn, fr.module, body_env, fr.self_cls, fr.depth))
+            for bp in body_paths:
+                for n in stable:
+                    bp.env[n] = p.env[n]
         if isinstance(st, ast.For) and mapped is not None and mapped[1] and self.feasible(skip_cond):
             body_paths.append(Path(skip_cond, [], dict(body_env)))      # elements the generator filters out: body not run
         p.events.append(Event("loop", st, it, extra=dict(paths=body_paths, init_env=dict(p.env), assigned=assigned,
